@@ -2,7 +2,8 @@ import PcfgVerif.Model.EditRules
 /-!
 # Helper lemmas for `edit_rules` (C20)
 
-1. characterisation of the generated fragments (`keepLen`, `isA` … `isX`, `yearLen`, `totalStart`);
+1. characterisation of the generated fragments (`keepLen`, `isA` … `isX`, `yearLenLo/Hi`, `startLo/Hi`,
+   `ctxLoIdx/HiIdx`) and of `totalLen` on a cons;
 2. the scanner `tokGo` on a concatenation of labels;
 3. `splitOnCp` on pieces that do not contain the separator;
 4. one-step unfoldings of the three line filters on a well-formed line.
@@ -11,16 +12,20 @@ namespace Pcfg
 
 /-! ## 1. generated fragments -/
 
-theorem gen_keepLen_iff (total mn mx : Nat) :
-    Generated.EditRules.keepLen total mn mx = true ↔
-      (total = 0 ∨ (mn ≤ total ∧ (mx = 0 ∨ total ≤ mx))) := by
+theorem gen_keepLen_iff (lo hi mn mx : Nat) :
+    Generated.EditRules.keepLen lo hi mn mx = true ↔
+      (hi = 0 ∨ (mn ≤ lo ∧ (mx = 0 ∨ hi ≤ mx))) := by
   simp only [Generated.EditRules.keepLen, CmpOp.nat]
-  by_cases h0 : total = 0
+  by_cases h0 : hi = 0
   · simp [h0]
-  · by_cases h1 : mn ≤ total <;> by_cases h2 : mx = 0 <;> simp [h0, h1, h2]
+  · by_cases h1 : mn ≤ lo <;> by_cases h2 : mx = 0 <;> simp [h0, h1, h2]
 
-theorem gen_yearLen : Generated.EditRules.yearLen = 4 := rfl
-theorem gen_totalStart : Generated.EditRules.totalStart = 0 := rfl
+theorem gen_yearLenLo : Generated.EditRules.yearLenLo = 4 := rfl
+theorem gen_yearLenHi : Generated.EditRules.yearLenHi = 4 := rfl
+theorem gen_startLo : Generated.EditRules.startLo = 0 := rfl
+theorem gen_startHi : Generated.EditRules.startHi = 0 := rfl
+theorem gen_ctxLo (ctx : Nat × Nat) : ctxAt ctx Generated.EditRules.ctxLoIdx = ctx.1 := rfl
+theorem gen_ctxHi (ctx : Nat × Nat) : ctxAt ctx Generated.EditRules.ctxHiIdx = ctx.2 := rfl
 
 theorem toNat_ofNat_small (c : Nat) (h : c < 0xd800) : (Char.ofNat c).toNat = c := by
   have hv : c.isValidChar := Or.inl h
@@ -49,13 +54,14 @@ theorem gen_isX (c : Nat) (h : c < 0xd800) : Generated.EditRules.isX (Char.ofNat
   simp [Generated.EditRules.isX, CmpOp.chr, ofNat_beq c h]
 
 /-- `tokenLen` with the generated fragments replaced by their meaning -/
-theorem tokenLen_cons (c : Nat) (ds : CPs) (h : c < 0xd800) :
-    tokenLen (c :: ds) =
-      if c = 0x59 then some 4
-      else if c = 0x41 ∨ c = 0x44 ∨ c = 0x4f ∨ c = 0x4b ∨ c = 0x58 then digitsVal ds
-      else some 0 := by
+theorem tokenLen_cons (ctx : Nat × Nat) (c : Nat) (ds : CPs) (h : c < 0xd800) :
+    tokenLen ctx (c :: ds) =
+      if c = 0x59 then some (4, 4)
+      else if c = 0x41 ∨ c = 0x44 ∨ c = 0x4f ∨ c = 0x4b then (digitsVal ds).map fun n => (n, n)
+      else if c = 0x58 then (digitsVal ds).map fun n => (n * ctx.1, n * ctx.2)
+      else some (0, 0) := by
   simp only [tokenLen, gen_isA c h, gen_isD c h, gen_isY c h, gen_isO c h, gen_isK c h, gen_isX c h,
-    gen_yearLen, decide_eq_true_eq]
+    gen_yearLenLo, gen_yearLenHi, gen_ctxLo, gen_ctxHi, decide_eq_true_eq]
   by_cases hA : c = 0x41
   · subst hA; simp
   by_cases hD : c = 0x44
@@ -69,6 +75,29 @@ theorem tokenLen_cons (c : Nat) (ds : CPs) (h : c < 0xd800) :
   by_cases hX : c = 0x58
   · subst hX; simp
   simp [hA, hD, hY, hO, hK, hX]
+
+theorem totalLen_nil (ctx : Nat × Nat) : totalLen ctx [] = some (0, 0) := rfl
+
+theorem totalLen_cons_some (ctx : Nat × Nat) (t : CPs) (ts : List CPs) (a b : Nat × Nat)
+    (ha : tokenLen ctx t = some a) (hb : totalLen ctx ts = some b) :
+    totalLen ctx (t :: ts) = some (a.1 + b.1, a.2 + b.2) := by
+  simp [totalLen, ha, hb]
+
+/-- `totalLen` succeeds on `t :: ts` exactly when both parts do -/
+theorem totalLen_cons_eq_some (ctx : Nat × Nat) (t : CPs) (ts : List CPs) (r : Nat × Nat) :
+    totalLen ctx (t :: ts) = some r ↔
+      ∃ a b, tokenLen ctx t = some a ∧ totalLen ctx ts = some b ∧ r = (a.1 + b.1, a.2 + b.2) := by
+  rw [totalLen]
+  cases ha : tokenLen ctx t with
+  | none => simp
+  | some a =>
+    cases hb : totalLen ctx ts with
+    | none => simp
+    | some b =>
+      simp only [Option.some.injEq]
+      constructor
+      · intro h; exact ⟨a, b, rfl, rfl, h.symm⟩
+      · rintro ⟨a', b', rfl, rfl, h⟩; exact h.symm
 
 /-! ## 2. the scanner -/
 
@@ -202,19 +231,22 @@ theorem textLines_blocks (ls : List CPs) (h : ∀ l ∈ ls, ∀ c ∈ l, c ≠ 0
 
 /-! ## 4. one step of each filter on a well-formed line -/
 
-theorem editLengthLines_step (mn mx : Nat) (line prob : CPs) (toks : List CPs) (total : Nat)
+theorem editLengthLines_step (ctx : Nat × Nat) (mn mx : Nat) (line prob : CPs) (toks : List CPs)
+    (total : Nat × Nat)
     (rest : List CPs) (hne : line ≠ []) (hprob : probField line = some prob)
-    (htok : tokenize line = toks) (htne : toks ≠ []) (htot : totalLen toks = some total) :
-    editLengthLines mn mx (line :: rest) =
-      (editLengthLines mn mx rest).map fun more =>
-        if Generated.EditRules.keepLen total mn mx then rebuild toks prob :: more else more := by
+    (htok : tokenize line = toks) (htne : toks ≠ []) (htot : totalLen ctx toks = some total) :
+    editLengthLines ctx mn mx (line :: rest) =
+      (editLengthLines ctx mn mx rest).map fun more =>
+        if Generated.EditRules.keepLen total.1 total.2 mn mx then rebuild toks prob :: more
+        else more := by
   have h1 : line.isEmpty = false := by cases line <;> simp_all
   have h2 : toks.isEmpty = false := by cases toks <;> simp_all
   rw [editLengthLines]
   simp only [h1, hprob, htok, h2, htot]
-  cases editLengthLines mn mx rest with
+  cases editLengthLines ctx mn mx rest with
   | none => simp
-  | some more => by_cases hk : Generated.EditRules.keepLen total mn mx = true <;> simp [hk]
+  | some more =>
+    by_cases hk : Generated.EditRules.keepLen total.1 total.2 mn mx = true <;> simp [hk]
 
 theorem editTerminalLines_step (allowed : List Nat) (line prob : CPs) (toks : List CPs)
     (rest : List CPs) (hne : line ≠ []) (hprob : probField line = some prob)
@@ -244,7 +276,8 @@ theorem checkRegexLines_step (ok : CPs → Bool) (line prob : CPs) (rest : List 
   | none => simp
   | some more => by_cases hk : ok (structField line) = true <;> simp [hk]
 
-theorem editLengthLines_last (mn mx : Nat) : editLengthLines mn mx [[]] = some [] := by
+theorem editLengthLines_last (ctx : Nat × Nat) (mn mx : Nat) :
+    editLengthLines ctx mn mx [[]] = some [] := by
   simp [editLengthLines]
 theorem editTerminalLines_last (allowed : List Nat) : editTerminalLines allowed [[]] = some [] := by
   simp [editTerminalLines]
@@ -312,11 +345,13 @@ theorem textRaw_filter_cons (keep : List CPs × CPs → Bool) (r : List CPs × C
       else textRaw (rows.filter keep) := by
   cases hk : keep r <;> simp [hk, textRaw]
 
-theorem editLength_filter_gen (mn mx : Nat) (keep : List CPs × CPs → Bool)
+theorem editLength_filter_gen (ctx : Nat × Nat) (mn mx : Nat) (keep : List CPs × CPs → Bool)
     (rows : List (List CPs × CPs))
-    (hkeep : ∀ r, keep r = Generated.EditRules.keepLen ((totalLen r.1).getD 0) mn mx)
-    (h : ∀ r ∈ rows, r.1 ≠ [] ∧ (∀ t ∈ r.1, LabelRaw t) ∧ ProbRaw r.2 ∧ (totalLen r.1).isSome) :
-    (editLengthLines mn mx ((rows.map fun r => lineRaw r.1 r.2) ++ [[]])).map List.flatten =
+    (hkeep : ∀ r, keep r = Generated.EditRules.keepLen ((totalLen ctx r.1).getD (0, 0)).1
+      ((totalLen ctx r.1).getD (0, 0)).2 mn mx)
+    (h : ∀ r ∈ rows,
+      r.1 ≠ [] ∧ (∀ t ∈ r.1, LabelRaw t) ∧ ProbRaw r.2 ∧ (totalLen ctx r.1).isSome) :
+    (editLengthLines ctx mn mx ((rows.map fun r => lineRaw r.1 r.2) ++ [[]])).map List.flatten =
       some (textRaw (rows.filter keep)) := by
   induction rows with
   | nil => simp [editLengthLines_last, textRaw]
@@ -324,22 +359,25 @@ theorem editLength_filter_gen (mn mx : Nat) (keep : List CPs × CPs → Bool)
     obtain ⟨hne, hl, hp, hs⟩ := h r (by simp)
     obtain ⟨total, htot⟩ := Option.isSome_iff_exists.mp hs
     have ih' := ih (fun x hx => h x (by simp [hx]))
-    have hk : Generated.EditRules.keepLen total mn mx = keep r := by rw [hkeep, htot]; rfl
+    have hk : Generated.EditRules.keepLen total.1 total.2 mn mx = keep r := by
+      rw [hkeep, htot]; rfl
     simp only [List.map_cons, List.cons_append]
-    rw [editLengthLines_step mn mx _ r.2 r.1 total _ (lineRaw_ne_nil _ _)
+    rw [editLengthLines_step ctx mn mx _ r.2 r.1 total _ (lineRaw_ne_nil _ _)
       (probField_lineRaw _ _ hl hp) (tokenize_lineRaw _ _ hl hp) hne htot, textRaw_filter_cons, hk]
-    cases hrest : editLengthLines mn mx ((rows.map fun r => lineRaw r.1 r.2) ++ [[]]) with
+    cases hrest : editLengthLines ctx mn mx ((rows.map fun r => lineRaw r.1 r.2) ++ [[]]) with
     | none => simp [hrest] at ih'
     | some more =>
       simp only [hrest, Option.map_some, Option.some.injEq] at ih' ⊢
       cases keep r <;> simp [ih', rebuild_eq]
 
-theorem editLength_filter_raw (mn mx : Nat) (rows : List (List CPs × CPs))
-    (h : ∀ r ∈ rows, r.1 ≠ [] ∧ (∀ t ∈ r.1, LabelRaw t) ∧ ProbRaw r.2 ∧ (totalLen r.1).isSome) :
-    (editLengthLines mn mx ((rows.map fun r => lineRaw r.1 r.2) ++ [[]])).map List.flatten =
+theorem editLength_filter_raw (ctx : Nat × Nat) (mn mx : Nat) (rows : List (List CPs × CPs))
+    (h : ∀ r ∈ rows,
+      r.1 ≠ [] ∧ (∀ t ∈ r.1, LabelRaw t) ∧ ProbRaw r.2 ∧ (totalLen ctx r.1).isSome) :
+    (editLengthLines ctx mn mx ((rows.map fun r => lineRaw r.1 r.2) ++ [[]])).map List.flatten =
       some (textRaw (rows.filter fun r =>
-        Generated.EditRules.keepLen ((totalLen r.1).getD 0) mn mx)) :=
-  editLength_filter_gen mn mx _ rows (fun _ => rfl) h
+        Generated.EditRules.keepLen ((totalLen ctx r.1).getD (0, 0)).1
+          ((totalLen ctx r.1).getD (0, 0)).2 mn mx)) :=
+  editLength_filter_gen ctx mn mx _ rows (fun _ => rfl) h
 
 theorem editTerminal_filter_gen (allowed : List Nat) (keep : List CPs × CPs → Bool)
     (rows : List (List CPs × CPs))
